@@ -18,7 +18,7 @@ Theorem subject_survives : forall d i rb m e s,
                pj_subject (project_parsed st) = Some v /\ decode_header v = Some s.
 Proof.
   intros d i rb m e s z Hfs Hd Hi Ho Hb Hfr Hg He Hwf Hc.
-  destruct (parse_render pa pl pd d i rb m Hfs Hd Hi Ho Hb Hfr) as (st & Hp & Hproj).
+  destruct (parse_render pa pl pd d i rb m Hfs Hd Hi Ho Hb Hfr) as (st & Hp & Hproj & _).
   exists st, (word_encode e s). split; [exact Hp|]. split.
   - rewrite Hproj. unfold project_built, gen_value. cbn [pj_subject]. rewrite Hg. reflexivity.
   - now apply decode_word_encode.
